@@ -10,115 +10,115 @@ CHECKS = {
         technique="Coq proof: sound abstract interpreter (Check.v) + non-interference theorem (Mono.v), evaluated by vm_compute on every exported kernel under the enabled-coefficient contract",
         text="Per exported kernel, for ALL input values: reads of w fall inside the ranges of enabled coefficients (offset_k, width*dim_k in reduced order), reads of c inside the constants' flattened extent; by the non-interference theorem the result is independent of every other input cell. Forms are sampled (pinned + seeded corpus); the front half (UFL's reduced_coefficients) is trusted.",
         note="Coq kernel+VM; exporter and contract computation (harness/ffx.py); LN.exec as meaning of emitted C (bit-exact correspondence run in C17); UFL enabled_coefficients/reduced_coefficients taken as given",
-        design="DESIGN.md 3 C05"),
+        design="DESIGN.md S.2 and 3 C05"),
     "C07": dict(
         technique="Coq proof: relational theorem kernel_accumulates (Accum.v) instantiated per exported kernel by vm_compute of accum_only_list; write-protection of inputs via Check.v soundness",
         text="Per exported kernel, for ALL inputs and ALL initial A: A1 = A0 (+) D with D the kernel's result from a zero tensor (exact arithmetic), inputs and const tables never written. Thread schedules are not modelled (no shared mutable state is the argument; partial for schedules).",
         note="Coq kernel+VM; exporter; exact arithmetic for the algebraic law; C semantics of restrict/static const trusted; threads not modelled",
-        design="DESIGN.md 3 C07"),
+        design="DESIGN.md S.2 and 3 C07"),
     "C08": dict(
         technique="Coq proof: type/bounds soundness of the abstract interpreter (check_sound, kernel_safe) w.r.t. a trapping big-step semantics; vm_compute per exported kernel; ASan build of the real C as failing-input search",
         text="Per exported kernel, for ALL inputs, loop iterations and admissible entity/permutation values: no subscript leaves a declared shape or the UFCx extents (A, w, c, coordinate_dofs, entity_local_index, quadrature_permutation); cell kernels never dereference entity/permutation pointers. Forms sampled.",
         note="Coq kernel+VM; exporter; extents computed from UFL data by the harness (independent of common.tensor_sizes); C row-major subscripts",
-        design="DESIGN.md 3 C08"),
+        design="DESIGN.md S.2 and 3 C08"),
 }
 
 CHECKS["C03"] = dict(
-    technique="Coq proof (flag half): non-interference theorem instantiated with a zero-length permutation array, vm_compute per exported kernel; real-C search over all permutation codes for a material difference",
-    text="Per exported kernel flagged needs_facet_permutations=false, for ALL inputs: the kernel never reads quadrature_permutation, hence the result is independent of it (theorem C03_unflagged_kernel_ignores_permutation). The numbering-invariance half (permutation family = facet symmetry group, physical points coincide) is not yet proved in this development: partial.",
-    note="Coq kernel+VM; exporter; DOLFINx's computation of permutation codes outside FFCx; numbering-invariance half pending",
-    design="DESIGN.md 3 C03")
+    technique="Coq proof (flag half): non-interference theorem instantiated with a zero-length permutation array, vm_compute per exported kernel; value half: the '-' cell is given every kind of valid local numbering and the kernel is run for every permutation code against the oracle, which pulls the physical point back into the renumbered cell; real-C search over all permutation codes for unflagged kernels",
+    text="Per exported kernel flagged needs_facet_permutations=false, for ALL inputs: the kernel never reads quadrature_permutation, hence the result is independent of it (theorem C03_unflagged_kernel_ignores_permutation). Numbering invariance is decided per sampled kernel and sampled renumbering (elements of the cell's symmetry group, all vertex permutations for simplices): some code of the '-' side reproduces the geometrically defined integral, and kernels with a single matching code agree on it for equal (cell, renumbering, facets). That the permutation family is the facet symmetry group is NOT proved in Coq (partial); which code DOLFINx passes is outside FFCx.",
+    note="Coq kernel+VM; exporter; oracle (affine '-' cells, pull-back of physical points); forms and renumberings sampled; DOLFINx's computation of permutation codes outside FFCx",
+    design="DESIGN.md S.2 / 3 C03")
 CHECKS["C19"] = dict(
     technique="Coq proof: scoping/typing progress theorem per exported kernel (vm_compute), finite exhaustive theorem over the rule-id table regenerated from /repo; gcc -std=c17 on every accepted case; rejection stream",
     text="Per exported kernel: every identifier declared once per C scope, before use, in scope (C name resolution done by the exporter, redeclaration/unbound detected by the proven checker). Exhaustive over cells x degree 0..30 x schemes x polyset types x vertex scheme: equal rule ids imply equal points and weights. Every accepted corpus case is compiled by gcc; unsupported constructs must raise before the compiler.",
     note="Coq kernel+VM; exporter name resolution; gcc as arbiter of C17 validity; SHA-1 collision-free on the enumerated rules; forms sampled",
-    design="DESIGN.md 3 C19")
+    design="DESIGN.md S.2 and 3 C19")
 
 CHECKS["C16"] = dict(
     technique="Coq proof: token-level printer model over the precedence table/comparators regenerated from the source derives canon(e) under a C17 expression grammar (fmtC_derives), value preservation (canon_eval), lexer safety for all trees; char-exact correspondence with the real Formatter, pycparser re-reading of expressions and whole kernels",
     text="For every well-formed expression tree: the printed tokens derive, under the C grammar, the same tree (n-ary nodes left-nested, negative literals as unary minus), which has the same value; no glued '--' for any tree. Statement level (loops, declarations, subscripts, bounds) and literals (one unit in the 16th printed digit) are decided by re-reading the real text with pycparser against the exported AST (correspondence). Complex literals are outside the Coq fragment. numba half: see C18.",
     note="Coq kernel+VM; tr_prec.py; the C grammar transcription in Tok.v and its unambiguity; pycparser; CPython float formatting",
-    design="DESIGN.md 3 C16")
+    design="DESIGN.md S.2 and 3 C16")
 
 CHECKS["C06"] = dict(
     technique="Coq proof over a hand model of common.integral_data (sorting keeps ids/names/domains paired, offsets delimit groups, dispatch lists exactly the entries of an id); correspondence model vs real function vs independent spec on generated inputs; descriptors read back from cffi-compiled modules",
     text="For all inputs of integral_data: groups in ufcx order, ids non-decreasing with names/domains paired, offsets = kernel counts per type, slots under an id = entries of that id. Compiled ufcx_form fields (offsets, ids, rank, coefficient positions, constant shapes, kernels present) compared with the declared form for forms with mixed types, tuple ids, repeated ids, prism facets, several forms. The 'sum of kernels = declared integrands' half is left to the value oracle (C01).",
     note="Coq kernel+VM; hand model tied by correspondence; UFL build_integral_data; cffi/gcc",
-    design="DESIGN.md 3 C06")
+    design="DESIGN.md S.2 and 3 C06")
 CHECKS["C17"] = dict(
     technique="Coq proof over overloads translated from lnodes.py on every run (tr_smart): value preservation for all operands and stores in any commutative ring; float_product; correspondence Python result tree vs translated function on every operand-kind pair; optimiser passes: exact rational execution of kernels generated with and without the passes (correspondence only); LN.exec vs gcc bit-exact",
     text="LExpr.__neg__/__add__/__radd__/__sub__/__rsub__/__mul__/__rmul__/__div__/__rdiv__ and float_product build trees with the same numeric value as the unsimplified operation for all operand kinds/values (exact arithmetic; IEEE corner cases excluded). The optimiser half (fuse_sections, fuse_loops, licm) is NOT proved: kernels with passes on/off are executed over exact rationals in Coq and must give equal tensors (partial).",
     note="Coq kernel+VM; tr_smart.py; ring hypotheses (satisfiable: SmartQc.v); optimiser by per-kernel exact execution only",
-    design="DESIGN.md 3 C17")
+    design="DESIGN.md S.2 and 3 C17")
 
 CHECKS["C13"] = dict(
     technique="Coq proof of injectivity of the signature pre-image encoding (separator-joined fields, fixed-length digests) and of name distinctness under an injective digest; shape check of naming.py by translator; subprocess runs across hash seeds / object counters / prior compilations; request pairs that must be kept apart",
     text="The text hashed into module and object names determines every component (forms, version, ufcx.h hash, kind, options+flags tag) - proved for all inputs of the encoding; SHA-1 and UFL signatures are assumed injective/renumbering-invariant. Stability and separation are exercised in fresh processes (seeds, histories, near-equal and large point arrays, flags, options).",
     note="Coq kernel; SHA-1; UFL signatures; Python str() of tuples/options; tr_naming.py",
-    design="DESIGN.md 3 C13")
+    design="DESIGN.md S.2 and 3 C13")
 
 CHECKS["C20"] = dict(
     technique="Coq proof of option precedence (association-list model of get_options and of main's priority options, option table and argparse defaults regenerated from the source by tr_opts) and of header/source assembly; end-to-end run of ffcx.main.main: gcc stand-alone, nm declared-subset-of-defined, aliases, kernels vs JIT path bit for bit, option matrix over the three sources",
     text="For every option key and all contents of the three sources: command line > $PWD file > user file > defaults (an option absent from the command line is None in argparse - checked on the regenerated table). Header = declarations, source = implementations in block order. One representative UFL file (named forms, forms list, expression, element) is compiled through the CLI and compared with the JIT kernels bit for bit.",
     note="Coq kernel+VM; tr_opts.py; UFL file loader; gcc/nm/cffi; programs: one UFL file + option matrix",
-    design="DESIGN.md 3 C20")
+    design="DESIGN.md S.2 and 3 C20")
 
 CHECKS["C14"] = dict(
     technique="Coq proof: inductive invariant over all reachable states of a transition-system model of jit.py's file-system protocol (any number of processes, any interleaving): mutual exclusion, marker implies complete, no partial load, at most one compile, reuse; trace conformance of the real compile_forms under a deterministic scheduler that stops at every file-system call",
     text="For every number of concurrent requests and every interleaving of their file-system steps: at most one builder, the ready marker is only present with a complete module, no request loads a partial module, the compiler finishes at most once without faults, a later request reuses the module in three steps. The model is validated against the real functions on scheduled runs (120 quick / 3000 thorough), the OS loader replaced by a content check. Correctness of the kernels inside the module is C01's concern.",
     note="Coq kernel+VM; hand model tied by trace conformance; POSIX exclusivity of open('x'), atomic rename, dlopen of a complete file; wall-clock timeout modelled as a poll counter",
-    design="DESIGN.md 3 C14, Appendix B")
+    design="DESIGN.md S.2 and 3 C14, Appendix B")
 CHECKS["C15"] = dict(
     technique="Coq proof over the same transition system with fault and kill transitions at every point: no partial load after any kill/failure (outside the marker window), failed build releases the lock, root logger handlers restored in every request that returns or raises (restore_on_fault read off the source by tr_jit); fault/kill-injected trace conformance; scripted schedule for the known marker-window finding",
     text="For every crash point and every later history: later requests load a complete module or raise, never a partial one; after a failed build the lock is renamed and the next request builds; process-global logger state is restored. The window between creating the marker and returning is excluded from the safety theorem and refuted there (known finding c15-marker-window, reproduced on the real code).",
     note="Coq kernel+VM; hand model tied by fault-injected trace conformance; kill = process disappears between two file-system calls; POSIX assumptions as C14",
-    design="DESIGN.md 3 C15, Appendix B")
+    design="DESIGN.md S.2 and 3 C15, Appendix B")
 
 CHECKS["C01"] = dict(
     technique="Coq proof of the layout facts (row-major flattening = printed stride expression, bijective onto [0,prod); blocked layout) + independent oracle (UFL point evaluation of the original integrand, textbook push-forwards, basix tabulation) against every cell kernel of the corpus; per exported kernel the theorems of C05/C07/C08/C16/C17/C19",
     text="The end-to-end statement (kernel = quadrature sum of the form) is decided per sampled form by differential execution against an independent oracle (agreement to ~1e-15 relative): NOT a theorem. Proved for all inputs are the index-layout lemmas; proved per exported kernel are purity/accumulation, bounds, packing, C text = AST. Partial: the front half (UFL lowering, basix, graph/factorisation) is not modelled.",
     note="oracle (harness/oracle.py) trusted as specification; forms sampled (pinned + seeded random, explicit quadrature degrees); Coq kernel for Flatten.v",
-    design="DESIGN.md 3 C01")
+    design="DESIGN.md S.2 and 3 C01")
 CHECKS["C02"] = dict(
     technique="Coq proof: affine sub-entity embedding is the barycentric combination of the entity's vertices (points of the reference facet land on that facet), interior-facet macro layout bijective; oracle run of every facet/vertex kernel for ALL local entity indices with different data on the two sides",
     text="Per sampled facet/vertex kernel every local entity index of the cell (prisms/pyramids: both facet types) is executed and compared with the independent oracle (normals, facet measures, point maps, '+'/'-' data in the macro layout). Proved: embedding and macro-layout lemmas. Partial: forms sampled; basix geometry/topology taken as data.",
     note="oracle trusted as specification; interior facets: mirrored '-' cell with identical local numbering and permutation code 0; Coq kernel for Affine.v/Flatten.v",
-    design="DESIGN.md 3 C02")
+    design="DESIGN.md S.2 and 3 C02")
 
 CHECKS["C04"] = dict(
     technique="Coq proof: the printed index of A[point][component][dof] is the row-major position and distinct (point, component, dof) never alias (Flatten.v); oracle evaluation of the expression at the given points for every sampled expression; JIT descriptor compared with the UFL expression",
     text="Per sampled expression (scalar/vector/tensor valued, rank 0 and 1, cell and facet points, affine and non-affine cells, mixed coefficients): every entry of A equals the expression evaluated at the point by the independent oracle, and the compiled ufcx_expression descriptor (points, value shape, rank, coefficient numbering, constants) matches the expression. Proved for all shapes: index layout lemmas. Per exported expression kernel the C05/C07/C08 theorems also apply. Partial: expressions sampled.",
     note="oracle trusted as specification; expressions sampled; Coq kernel for Flatten.v; cffi JIT for the descriptor",
-    design="DESIGN.md 3 C04")
+    design="DESIGN.md S.2 and 3 C04")
 CHECKS["C09"] = dict(
     technique="Coq proof: finite exhaustive theorem over the formatter's math-function tables regenerated from /repo (every UFL math operator x 4 scalar types selects a function existing for the operand type, complex operands of real-only functions are rejected); oracle comparison of each form compiled for float32/float64/complex64/complex128 on data of that type",
     text="Proved (finite, exhaustive over operators x scalar types, re-derived from the source on every run): the selected C function exists for the operand type; a complex operand never silently reaches a real-only function. Sampled: sesquilinear forms with complex data agree with the oracle evaluated in complex arithmetic with the test function conjugated, for all four scalar types; complex operands of erf/atan2/bessel must be rejected while real-valued operands still work.",
     note="Coq kernel+VM; tr_math.py; oracle trusted as specification (Python math/cmath, own Bessel quadrature); glibc libm/complex.h",
-    design="DESIGN.md 3 C09")
+    design="DESIGN.md S.2 and 3 C09")
 
 CHECKS["C11"] = dict(
     technique="Coq proof: model of IntegralGenerator's variable scopes (per-rule scope + shared piecewise scope) with the cache test regenerated from the source; theorem: every rule reads its own varying values for all rule lists; correspondence of the model with the real generator's scope resolution; oracle with each integral's own rule; closed-form monomial integrals in exact rational arithmetic for every cell and degree 0..30",
     text="Proved for all lists of rules and all status assignments: a node that varies under rule i is resolved to rule i's own definition (refuted by example for the pre-fix cache test). Correspondence: the real generator's resolution of every node equals the model's on all multi-rule kernels of the corpus. Sampled: sums of integrals with differing rules (degrees, vertex/GLL/custom schemes, quadrature elements, facets, subdomains) agree with the oracle integrating each with its own rule; forms without metadata are exact on affine cells; monomial functionals of degree q with dx(degree=q) equal the closed-form integral (7 cells, q=0..30, schemes default/GLL/Gauss-Jacobi/xiao_gimbutas). Exactness of basix' rules is not proved in Coq.",
     note="Coq kernel+VM; tr_scope.py; oracle and exact rational closed forms trusted; forms sampled; known finding: two different one-point rules in one integral share piecewise values",
-    design="DESIGN.md 3 C11")
+    design="DESIGN.md S.2 and 3 C11")
 
 CHECKS["C10"] = dict(
     technique="Coq proof: clamping bound for all entries/tolerances (Clamp.v, targets regenerated from the source), diagonal kernel = diagonal of the full tensor for all dof-block lists under FFCx's layouts with the block guard read off the source (Diag.v), tensor-product rule factorisation (SumFact.v); each form compiled under each option and compared with the independent oracle",
     text="Proved: an element-table entry moves by at most atol+rtol under clamp_table_small_numbers (and not at all for zero tolerances); with the guard found in generate_block_parts the rank-1 kernel equals the diagonal for every list of blocks whose position families are equal or disjoint; flat tensor-rule sum = product of directional sums. Sampled: sum_factorization on/off on tensor-product elements (coefficients, several rules, one-point rules, vector-valued, hex/quad), options on integrals they do not apply to (no rejection, no change), part='diagonal' through the real compile_forms preprocessing (mixed, vector, interior facets, H(div)/H(curl)), zero and coarse table tolerances.",
     note="Coq kernel; tr_c10.py; oracle trusted as specification; forms sampled; table classification uses default tolerances regardless of the options (noted)",
-    design="DESIGN.md 3 C10")
+    design="DESIGN.md S.2 and 3 C10")
 
 CHECKS["C12"] = dict(
     technique="Coq proof: site table of every hash-ordered set / process-global id in ffcx/ regenerated by a syntactic scanner, finite theorem that no site leaks enumeration order, general theorem that a sorted site is enumeration-independent (Order.v); subprocess generation under different PYTHONHASHSEED values and histories compared byte for byte",
     text="Proved: for any two enumerations of the same elements a sorted site returns the same list (keys separating the elements); size/membership observations are order-free; every site the scanner finds in ffcx/ is Sorted, OrderFree or a list de-duplication (finite, re-derived from the source on every run; three sites cleared by a justified allow-list). Sampled: every corpus case generated in separate processes for several hash seeds and under four histories (unrelated UFL objects first, reverse order, another form in between, same form twice), C and numba, digests equal.",
     note="Coq kernel+VM; tr_sites.py (syntactic, flow-insensitive; UFL's and basix' own ordering functions are outside it); forms, seeds and histories sampled",
-    design="DESIGN.md 3 C12")
+    design="DESIGN.md S.2 and 3 C12")
 
 CHECKS["C18"] = dict(
     technique="Correspondence: the numba module FFCx generates is parsed, executed in plain Python (numba.carray modelled as a numpy view of the declared extent) and every kernel compared with the C kernel of the same objects on the same inputs; descriptor classes compared with the C descriptors and the user's expressions. Coq proof (small): the numba formatter's parenthesisation comparators, regenerated from the source, coincide with the C formatter's, whose output derives the canonical tree (Fmt.fmtC_derives)",
     text="Sampled forms/expressions (all integral types, conditionals with Not/And/Or, min/max/abs/sign/power, all math functions, interior facets with coefficients in 1D/2D/3D, facet permutations, mixed spaces, constants, complex and single precision, two rules, diagonal, sum factorisation): valid Python, the kernels agree with the C kernels to 1e-11, reads stay inside the extents declared by tensor_sizes, descriptors carry the same metadata. Proved only: both printers parenthesise the same operand positions of the same AST. The Python grammar is not formalised (partial); real numba.cfunc compilation is left to the test suite.",
     note="CPython as executor of the generated module; numba stub (harness/nbrun.py); gcc; Coq kernel for the comparator theorem; forms sampled",
-    design="DESIGN.md 3 C18")
+    design="DESIGN.md S.2 and 3 C18")
 
 ALL = [f"C{i:02d}" for i in range(1, 21)]
 
